@@ -26,6 +26,8 @@ func main() {
 		res = runAPI(raw)
 	case "tcp":
 		res = runTCP(raw)
+	case "client":
+		res = runClient(raw)
 	default:
 		_ = raw
 		fmt.Fprintf(os.Stderr, "unknown mode %q\n", *mode)
